@@ -39,6 +39,8 @@ class Build:
           return chart.trans(self.fns[a])
         if k == "decline":
           return return_status.UNHANDLED
+        if k == "ignore":
+          return return_status.IGNORED
         return return_status.HANDLED
       cb.__name__ = cb.__qualname__ = "vcb_%d_%s" % (i, key)
       # callbacks need not be plain functions: partial objects and callable objects are callables
@@ -157,7 +159,7 @@ class C17(Prop):
   quick_examples = 500
   thorough_examples = 3000
   rule = ("One Hypothesis-generated chart (forest of 1-8 states, initial transitions, reactions "
-          "handle / transition / decline / counter-guard, states with and without entry, exit and "
+          "handle / transition / decline / counter-guard / answer IGNORED, states with and without entry, exit and "
           "init callbacks) is built five ways out of uniquely named logging callbacks (plain "
           "functions, functools.partial objects, callable objects or methods bound to the chart, each carrying a __name__): hand-written "
           "closures; state_method_template + register_signal_callback + register_parent on an "
@@ -196,11 +198,24 @@ class C17(Prop):
 
     def redraft(case, pick):
       return dict(case, spec=dict(case["spec"], reparent=True)) if pick == 0 else case
+    def ignoring(case, pick):
+      # some callbacks answer IGNORED instead of HANDLED ("seen, dropped"): the search ends there too
+      if pick != 0:
+        return case
+      spec, k = case["spec"], [0]
+
+      def conv(r):
+        if r[0] in ("handle", "decline"):
+          k[0] += 1
+          if k[0] % 2:
+            return ["ignore"]
+        return r
+      return dict(case, spec=dict(spec, react=[dict((sg, conv(r)) for sg, r in sorted(x.items())) for x in spec["react"]]))
     return st.tuples(chartgen.chart_case(max_events=8, max_states=8, max_sigs=3, spy=True), flav,
                      st.one_of(st.none(), st.integers(0, 200)), st.integers(0, 2), st.integers(0, 3),
-                     st.integers(0, 2)).map(
-      lambda t: some_callback(redraft(library_signal(dict(t[0], spec=dict(t[0]["spec"], flavours=t[1]), late=t[2],
-                                                          by_name=(t[3] == 0)), t[4]), t[5])))
+                     st.integers(0, 2), st.integers(0, 2)).map(
+      lambda t: some_callback(ignoring(redraft(library_signal(dict(t[0], spec=dict(t[0]["spec"], flavours=t[1]), late=t[2],
+                                                                   by_name=(t[3] == 0)), t[4]), t[5]), t[6])))
 
   def transcript_direct(self, case, chart, build):
     from miros.event import Event, signals
